@@ -1,91 +1,466 @@
+// Harness of property C14: data sources and firmware walker denote the bytes they name;
+// address maps cohere.
+//
+// Part A: every physical-address/offset conversion of the suite on every offset class and
+//
+//	image size (correspondence cases + independent oracle: address = 4 GiB - size + offset,
+//	round trips).
+//
+// Part B: tools.CalcImageOffset on the three image layouts (+ nothing-matches).
+// Part C: the walker (ffs.NodeVisitor), the node selectors and the data sources on the
+//
+//	bundled images and images derived from them, against the harness' own ground truth.
 package main
 
 import (
-	"bytes"
 	"fmt"
-	"io"
 	"math"
 	"os"
+	"syscall"
 
+	"verifharness/gal"
+
+	"github.com/9elements/converged-security-suite/v2/pkg/bootflow/subsystems/trustchains/tpm/pcrbruteforcer"
+	"github.com/9elements/converged-security-suite/v2/pkg/bootflow/systemartifacts/biosimage"
+	"github.com/9elements/converged-security-suite/v2/pkg/bootflow/types"
+	"github.com/9elements/converged-security-suite/v2/pkg/tools"
+	"github.com/9elements/converged-security-suite/v2/pkg/tpmeventlog"
 	"github.com/9elements/converged-security-suite/v2/pkg/uefi"
+	"github.com/9elements/converged-security-suite/v2/pkg/uefi/consts"
 	"github.com/9elements/converged-security-suite/v2/pkg/uefi/ffs"
+	pkgbytes "github.com/linuxboot/fiano/pkg/bytes"
 	fianoUEFI "github.com/linuxboot/fiano/pkg/uefi"
-	"github.com/ulikunitz/xz"
 )
 
-func loadXZ(p string) []byte {
-	f, err := os.Open(p)
+const header = `From CSS Require Import Lib.Base Lib.Cases Model.AddrMap Model.AddrMapCases.`
+
+const (
+	findD9 = "C14-D9-CalcImageOffset-bios-only"
+)
+
+// an artifact of any size (PhysMemMapper only asks for Size())
+type sizedArtifact struct{ size uint64 }
+
+func (a sizedArtifact) Size() uint64                            { return a.size }
+func (a sizedArtifact) ReadAt(p []byte, off int64) (int, error) { return 0, fmt.Errorf("no content") }
+
+var _ types.SystemArtifact = sizedArtifact{}
+
+// a firmware node of any length (UEFI.PhysAddrToOffset only asks for len(Buf()))
+type fakeFW struct{ buf []byte }
+
+func (f *fakeFW) Buf() []byte                           { return f.buf }
+func (f *fakeFW) SetBuf(b []byte)                       { f.buf = b }
+func (f *fakeFW) Apply(v fianoUEFI.Visitor) error       { return v.Visit(f) }
+func (f *fakeFW) ApplyChildren(fianoUEFI.Visitor) error { return nil }
+
+// address space only: PROT_NONE, never touched
+func reserve(n int) []byte {
+	b, err := syscall.Mmap(-1, 0, n, syscall.PROT_NONE, syscall.MAP_ANON|syscall.MAP_PRIVATE|syscall.MAP_NORESERVE)
 	if err != nil {
-		panic(err)
-	}
-	defer f.Close()
-	r, err := xz.NewReader(f)
-	if err != nil {
-		panic(err)
-	}
-	b, err := io.ReadAll(r)
-	if err != nil {
-		panic(err)
+		return nil
 	}
 	return b
 }
 
-func kind(f fianoUEFI.Firmware) string {
-	s := fmt.Sprintf("%T", f)
-	if sec, ok := f.(*fianoUEFI.Section); ok {
-		s += "/" + sec.Type
-	}
-	if fl, ok := f.(*fianoUEFI.File); ok {
-		s += "/" + fl.Header.Type.String()
-	}
-	return s
-}
-
-func walk(name string, img []byte, fallback bool) {
-	fw, err := uefi.ParseUEFIFirmwareBytes(img)
-	if err != nil {
-		fmt.Println(name, "parse error", err)
-		return
-	}
-	total, unknown, okc, bad := 0, 0, 0, 0
-	stats := map[string][3]int{}
-	err = (&ffs.NodeVisitor{FallbackToContainerRange: fallback, Callback: func(n ffs.Node) (bool, error) {
-		total++
-		k := kind(n.Firmware)
-		st := stats[k]
-		if n.Offset == math.MaxUint64 {
-			unknown++
-			st[0]++
-		} else if n.Offset+n.Length <= uint64(len(img)) && bytes.Equal(img[n.Offset:n.Offset+n.Length], n.Buf()) {
-			okc++
-			st[1]++
-		} else {
-			bad++
-			st[2]++
-			g := n.GUID()
-			fmt.Printf("  BAD %s guid=%v off=%#x len=%#x buflen=%#x\n", k, g, n.Offset, n.Length, len(n.Buf()))
-			if idx := bytes.Index(img, n.Buf()); idx >= 0 && len(n.Buf()) > 16 {
-				fmt.Printf("      true offset (first occurrence) %#x\n", idx)
-			}
-		}
-		stats[k] = st
-		return true, nil
-	}}).Run(fw)
-	fmt.Println(name, "fallback", fallback, "err", err, "size", len(img), "total", total, "unknown", unknown, "ok", okc, "bad", bad)
-	for k, v := range stats {
-		fmt.Println("   ", k, v)
-	}
-}
+func u64s(v ...uint64) []uint64 { return v }
 
 func main() {
+	ctx := gal.New("C14", header, 400)
 	repo := os.Getenv("VERIF_REPO")
 	if repo == "" {
 		repo = "/repo"
 	}
-	gal := loadXZ(repo + "/testdata/firmware/GALAGOPRO3.fd.xz")
-	fake, _ := os.ReadFile(repo + "/testdata/firmware/fake_intel_firmware.fd")
-	walk("fake", fake, false)
-	walk("fake", fake, true)
-	walk("galago", gal, false)
-	walk("galago", gal, true)
+	conversions(ctx)
+	fake, err := os.ReadFile(repo + "/testdata/firmware/fake_intel_firmware.fd")
+	if err != nil {
+		panic(err)
+	}
+	galago := loadXZ(repo + "/testdata/firmware/GALAGOPRO3.fd.xz")
+	calcOffsets(ctx, fake, galago)
+	imagesPart(ctx, fake, galago)
+	ctx.Finish("A: sizes {1, 64K, 8M, 16M, 32M, 0x5e0000, 2^32-1, 2^32, 0, >2^32, random} x offsets {0, 1, size-1, size, size+1, random<size, random u64}: " +
+		"PhysMemMapper (all six entry points, range lists), UEFI.PhysAddrToOffset/OffsetToPhysAddr, consts.Calculate*, both isPhysAddr copies; " +
+		"B: CalcImageOffset on full-flash (descriptor + BIOS region, BIOS last / not last), coreboot (FMAP), bare BIOS region and unparseable images x address classes; " +
+		"C: NodeVisitor (fallback on/off, AddOffset, random stop answers), GetByGUID/Range/RegionType, UEFIGUIDFirst, UEFIFilesByType/ByName, VolumeOf, MemRanges, FITFirst/FITAll, ACMDate, IBB, PCR0_DATA on " +
+		"GALAGOPRO3, the synthetic Intel image, both behind a flash descriptor, tail truncations and parse-preserving byte mutations")
+}
+
+// ------------------------------------------------------------------ Part A
+
+func conversions(ctx *gal.Ctx) {
+	rng := ctx.Rng
+	sizes := u64s(1, 0x10000, 8<<20, 16<<20, 32<<20, 0x5e0000, 0x11000, 1<<32-1, 1<<32, 0, 1<<32+1, 1<<33, math.MaxUint64)
+	for i := 0; i < ctx.Scale(10, 60); i++ {
+		sizes = append(sizes, 1+uint64(rng.Int63n(1<<32)))
+	}
+	sizes = append(sizes, rng.Uint64())
+	space := reserve(1<<32 + 0x1000)
+	mapper := biosimage.PhysMemMapper{}
+	for _, size := range sizes {
+		var offs []uint64
+		offs = append(offs, 0, 1, size-1, size, size+1)
+		if size > 0 {
+			for i := 0; i < ctx.Scale(4, 12); i++ {
+				offs = append(offs, rng.Uint64()%size)
+			}
+		}
+		offs = append(offs, rng.Uint64(), rng.Uint64())
+		art := sizedArtifact{size}
+		var fw *uefi.UEFI
+		if space != nil && size <= uint64(len(space)) {
+			fw = &uefi.UEFI{Node: ffs.Node{Firmware: &fakeFW{buf: space[:size:size]}}}
+		}
+		for k, off := range offs {
+			addr := off + fourGiB - size // uint64 wrap; meaningful when size <= 4 GiB
+			inDom := size <= fourGiB && off < size
+			descr := func(op string, extra ...interface{}) map[string]interface{} {
+				m := map[string]interface{}{"op": op, "size": size, "offset": off, "addr": addr}
+				for i := 0; i+1 < len(extra); i += 2 {
+					m[extra[i].(string)] = extra[i+1]
+				}
+				return m
+			}
+			oracle := func(idx int, what string, site string, got, want uint64, in map[string]interface{}) {
+				if !inDom {
+					return
+				}
+				if got == want {
+					ctx.OracleOK()
+				} else {
+					ctx.OracleFail(idx, fmt.Sprintf("%s = %#x, expected %#x (address = 4GiB - size + offset)", what, got, want), site, in)
+				}
+			}
+			ln := uint64(1 + rng.Intn(0x1000))
+
+			// PhysMemMapper, single ranges + a random list
+			pmm := func(which int, in pkgbytes.Ranges) (pkgbytes.Ranges, int) {
+				var out pkgbytes.Ranges
+				var err error
+				var cp = append(pkgbytes.Ranges(nil), in...)
+				p, _ := gal.Recover(func() {
+					switch which {
+					case 0:
+						out, err = mapper.Resolve(art, cp...)
+					case 1:
+						out = mapper.ResolveFullImageOffset(art, cp...)
+					case 2:
+						out, err = mapper.Unresolve(art, cp...)
+					case 3:
+						out = mapper.UnresolveFullImageOffset(art, cp...)
+					}
+				})
+				name := []string{"Resolve", "ResolveFullImageOffset", "Unresolve", "UnresolveFullImageOffset"}[which]
+				lit := fmt.Sprintf("CPmm %d %s %s %s", which, gal.U(size), rangesLit(in), obsRanges(out, err, p))
+				idx := ctx.Add("pmm", lit, descr("PhysMemMapper."+name, "ranges", in), inDom)
+				if p || err != nil || len(out) != len(in) {
+					ctx.OracleFail(idx, fmt.Sprintf("PhysMemMapper.%s: panic/err/length: %v %v %d", name, p, err, len(out)), "pkg/bootflow/systemartifacts/biosimage/phys_mem_mapper.go", descr(name))
+					return nil, idx
+				}
+				return out, idx
+			}
+			site := "pkg/bootflow/systemartifacts/biosimage/phys_mem_mapper.go"
+			w := k % 2
+			if out, idx := pmm(w, pkgbytes.Ranges{{Offset: addr, Length: ln}}); out != nil {
+				oracle(idx, "Resolve(addr)", site, out[0].Offset, off, descr("Resolve"))
+				if out[0].Length != ln {
+					ctx.OracleFail(idx, "Resolve changed the length", site, descr("Resolve"))
+				}
+				// and back
+				if back, idx2 := pmm(2+w, out); back != nil {
+					if back[0].Offset == addr {
+						ctx.OracleOK()
+					} else {
+						ctx.OracleFail(idx2, fmt.Sprintf("Unresolve(Resolve(%#x)) = %#x", addr, back[0].Offset), site, descr("Unresolve∘Resolve"))
+					}
+				}
+			}
+			if out, idx := pmm(3-w, pkgbytes.Ranges{{Offset: off, Length: ln}}); out != nil {
+				oracle(idx, "Unresolve(offset)", site, out[0].Offset, addr, descr("Unresolve"))
+			}
+			if k%4 == 0 {
+				var l pkgbytes.Ranges
+				for i := rng.Intn(5); i > 0; i-- {
+					o := rng.Uint64()
+					if rng.Intn(2) == 0 && size > 0 && size <= fourGiB {
+						o = fourGiB - size + rng.Uint64()%size
+					}
+					l = append(l, pkgbytes.Range{Offset: o, Length: uint64(rng.Intn(1 << 20))})
+				}
+				pmm(rng.Intn(4), l)
+			}
+
+			// uefi.UEFI
+			if fw != nil {
+				got := fw.PhysAddrToOffset(addr)
+				idx := ctx.Add("uefi", fmt.Sprintf("CUefi true %s %s %s", gal.U(size), gal.U(addr), gal.U(got)), descr("UEFI.PhysAddrToOffset"), inDom)
+				oracle(idx, "UEFI.PhysAddrToOffset(addr)", "pkg/uefi/uefi.go", got, off, descr("UEFI.PhysAddrToOffset"))
+				got2 := fw.OffsetToPhysAddr(off)
+				idx = ctx.Add("uefi", fmt.Sprintf("CUefi false %s %s %s", gal.U(size), gal.U(off), gal.U(got2)), descr("UEFI.OffsetToPhysAddr"), inDom)
+				oracle(idx, "UEFI.OffsetToPhysAddr(offset)", "pkg/uefi/uefi.go", got2, addr, descr("UEFI.OffsetToPhysAddr"))
+				if fw.OffsetToPhysAddr(fw.PhysAddrToOffset(addr)) != addr || fw.PhysAddrToOffset(fw.OffsetToPhysAddr(off)) != off {
+					ctx.OracleFail(idx, "UEFI.PhysAddrToOffset / OffsetToPhysAddr are not inverse", "pkg/uefi/uefi.go", descr("roundtrip"))
+				} else {
+					ctx.OracleOK()
+				}
+			}
+
+			// consts
+			{
+				tail := size - off // distance from the end of the image
+				got := consts.CalculatePhysAddrFromTailOffset(tail)
+				idx := ctx.Add("consts", fmt.Sprintf("CConsts 0 %s 0 %s", gal.U(tail), gal.U(got)), descr("CalculatePhysAddrFromTailOffset", "tail", tail), inDom)
+				oracle(idx, "CalculatePhysAddrFromTailOffset(size-offset)", "pkg/uefi/consts/calculate.go", got, addr, descr("CalculatePhysAddrFromTailOffset"))
+				got = consts.CalculateTailOffsetFromPhysAddr(addr)
+				idx = ctx.Add("consts", fmt.Sprintf("CConsts 1 %s 0 %s", gal.U(addr), gal.U(got)), descr("CalculateTailOffsetFromPhysAddr"), inDom)
+				oracle(idx, "CalculateTailOffsetFromPhysAddr(addr)", "pkg/uefi/consts/calculate.go", got, tail, descr("CalculateTailOffsetFromPhysAddr"))
+				got = consts.CalculateOffsetFromPhysAddr(addr, size)
+				idx = ctx.Add("consts", fmt.Sprintf("CConsts 2 %s %s %s", gal.U(addr), gal.U(size), gal.U(got)), descr("CalculateOffsetFromPhysAddr"), inDom)
+				oracle(idx, "CalculateOffsetFromPhysAddr(addr, size)", "pkg/uefi/consts/calculate.go", got, off, descr("CalculateOffsetFromPhysAddr"))
+				if consts.CalculatePhysAddrFromTailOffset(consts.CalculateTailOffsetFromPhysAddr(addr)) != addr {
+					ctx.OracleFail(idx, "tail-offset conversions are not inverse", "pkg/uefi/consts/calculate.go", descr("roundtrip"))
+				} else {
+					ctx.OracleOK()
+				}
+			}
+
+			// isPhysAddr (two copies), on the address and on its neighbours
+			for _, a := range u64s(addr, addr-1, addr+1, fourGiB-size, fourGiB-size-1, fourGiB-1, fourGiB, rng.Uint64()) {
+				want := size > 0 && size <= fourGiB && a >= fourGiB-size && a < fourGiB
+				for c, f := range []func(uint64, uint64) bool{tpmeventlog.VerifIsPhysAddr, pcrbruteforcer.VerifIsPhysAddr} {
+					got := f(a, size)
+					site := []string{"pkg/tpmeventlog/parse_event_data.go:isPhysAddr", "pkg/bootflow/subsystems/trustchains/tpm/pcrbruteforcer/analyze_unexpected_log_entry.go:isPhysAddr"}[c]
+					idx := ctx.Add("is-phys-addr", fmt.Sprintf("CIsPhys %s %s %s", gal.U(a), gal.U(size), gal.Bool(got)), map[string]interface{}{"op": "isPhysAddr", "copy": c, "addr": a, "size": size}, size <= fourGiB)
+					if size <= fourGiB {
+						if got == want {
+							ctx.OracleOK()
+						} else {
+							ctx.OracleFail(idx, fmt.Sprintf("isPhysAddr(%#x, %#x) = %v, expected %v", a, size, got, want), site, map[string]interface{}{"addr": a, "size": size})
+						}
+					}
+				}
+			}
+		}
+	}
+}
+
+// ------------------------------------------------------------------ Part B
+
+type layoutCase struct {
+	name  string
+	img   []byte
+	lit   string // Gallina layout
+	top   uint64 // offset that is mapped to 4 GiB (end of the BIOS region / COREBOOT area); 0 = none
+	kind  string
+	atEnd bool // top == len(img): "address = 4 GiB - image size + offset" applies
+}
+
+func calcOffsets(ctx *gal.Ctx, fake, galago []byte) {
+	rng := ctx.Rng
+	var ls []layoutCase
+	add := func(name string, img []byte, lit string, top uint64, kind string) {
+		ls = append(ls, layoutCase{name, img, lit, top, kind, top == uint64(len(img))})
+	}
+	add("fake (bare BIOS region)", fake, "LBiosOnly", uint64(len(fake)), "bios-only")
+	add("GALAGOPRO3 (bare BIOS region)", galago, "LBiosOnly", uint64(len(galago)), "bios-only")
+	for _, v := range [][2]int{{0, 0}, {3, 0}, {0, 2}, {5, 7}} {
+		img, off := withIFD(fake, v[0], v[1])
+		add(fmt.Sprintf("descriptor + %d blocks + fake + %d blocks", v[0], v[1]), img,
+			fmt.Sprintf("(LFullFlash %d %d)", off, len(fake)), uint64(off)+uint64(len(fake)), "full-flash")
+	}
+	{
+		img, off := withIFD(galago, 0, 0)
+		add("descriptor + GALAGOPRO3", img, fmt.Sprintf("(LFullFlash %d %d)", off, len(galago)), uint64(off)+uint64(len(galago)), "full-flash")
+	}
+	for i := 0; i < 4; i++ {
+		total := 0x20000 << uint(i%2)
+		cbOff := uint32(0x2000 + 0x1000*rng.Intn(8))
+		cbSize := uint32(total) - cbOff
+		if i == 3 {
+			cbSize -= 0x3000 // COREBOOT area not at the end of the flash
+		}
+		add(fmt.Sprintf("coreboot %#x, COREBOOT %#x+%#x", total, cbOff, cbSize), corebootImage(total, 0x1000, cbOff, cbSize),
+			fmt.Sprintf("(LCoreboot %d %d)", cbOff, cbSize), uint64(cbOff)+uint64(cbSize), "coreboot")
+	}
+	add("unparseable", unparseableImage(), "LNone", 0, "none")
+
+	for _, l := range ls {
+		size := uint64(len(l.img))
+		base := fourGiB - size
+		addrs := u64s(base, base+1, fourGiB-1, fourGiB-0x10, fourGiB-0x40, base+size/2, fourGiB, base-1, 0, rng.Uint64())
+		for i := 0; i < ctx.Scale(3, 10); i++ {
+			addrs = append(addrs, base+rng.Uint64()%size)
+		}
+		if len(l.img) > 1<<20 {
+			addrs = addrs[:6] // every call re-parses the image
+		}
+		var d9 []string
+		var firstIdx = -1
+		for _, addr := range addrs {
+			var got uint64
+			var err error
+			p, msg := gal.Recover(func() { got, err = tools.CalcImageOffset(l.img, addr) })
+			obs := "(OOk " + gal.U(got) + ")"
+			if p {
+				obs = "OPanic"
+			} else if err != nil {
+				obs = "OErr"
+			}
+			in := map[string]interface{}{"op": "CalcImageOffset", "image": l.name, "size": size, "addr": addr, "layout": l.kind}
+			inRange := addr >= base && addr < fourGiB
+			idx := ctx.Add("calc-image-offset/"+l.kind, fmt.Sprintf("CCalcOff %s %s %s", l.lit, gal.U(addr), obs), in, inRange)
+			if firstIdx < 0 {
+				firstIdx = idx
+			}
+			switch {
+			case p:
+				ctx.OracleFail(idx, "CalcImageOffset panicked: "+msg, "pkg/tools/ifd.go:CalcImageOffset", in)
+			case l.kind == "none":
+				if err != nil && got == math.MaxUint64 {
+					ctx.OracleOK()
+				} else {
+					ctx.OracleFail(idx, fmt.Sprintf("CalcImageOffset on an image nothing recognises: %#x, %v", got, err), "pkg/tools/ifd.go:CalcImageOffset", in)
+				}
+			case err != nil:
+				ctx.OracleFail(idx, "CalcImageOffset: "+err.Error(), "pkg/tools/ifd.go:CalcImageOffset", in)
+			case inRange && l.atEnd:
+				want := addr - base
+				if got == want {
+					ctx.OracleOK()
+				} else if l.kind == "bios-only" && got == fourGiB-addr {
+					d9 = append(d9, fmt.Sprintf("CalcImageOffset(%s, %#x) = %#x, expected %#x", l.name, addr, got, want))
+					ctx.Rep.OracleChecks++
+				} else {
+					ctx.OracleFail(idx, fmt.Sprintf("CalcImageOffset(%s, %#x) = %#x, expected %#x (address = 4GiB - size + offset)", l.name, addr, got, want), "pkg/tools/ifd.go:CalcImageOffset", in)
+				}
+			case inRange:
+				// the region that ends at 4 GiB is not the end of the file: the anchor is the region's end
+				want := l.top - (fourGiB - addr)
+				if got == want {
+					ctx.OracleOK()
+				} else {
+					ctx.OracleFail(idx, fmt.Sprintf("CalcImageOffset(%s, %#x) = %#x, expected %#x (end of the mapped region at 4GiB)", l.name, addr, got, want), "pkg/tools/ifd.go:CalcImageOffset", in)
+				}
+			}
+		}
+		if len(d9) > 0 {
+			ctx.OracleFailKnown(firstIdx, findD9, fmt.Sprintf("%d address(es): %s", len(d9), d9[0]), "pkg/tools/ifd.go:CalcImageOffset (bare BIOS region branch)",
+				map[string]interface{}{"image": l.name, "size": size, "examples": head(d9, 4)})
+		}
+	}
+	// fixed witness
+	got, err := tools.CalcImageOffset(fake, 0xfffffff0)
+	ctx.Probe(findD9, err == nil && got == 0x10 && len(fake) == 0x10000,
+		fmt.Sprintf("tools.CalcImageOffset(fake_intel_firmware.fd (64 KiB, bare BIOS region), 0xfffffff0) = %#x, err=%v; the byte is at offset 0xfff0", got, err))
+}
+
+// ------------------------------------------------------------------ Part C
+
+func imagesPart(ctx *gal.Ctx, fake, galago []byte) {
+	rng := ctx.Rng
+	var ims []image
+	ims = append(ims, image{name: "fake_intel_firmware.fd", data: fake, pristine: true})
+	ims = append(ims, image{name: "GALAGOPRO3.fd", data: galago, heavy: true, pristine: true})
+	{
+		img, _ := withIFD(fake, 0, 0)
+		ims = append(ims, image{name: "descriptor+fake", data: img})
+		img, _ = withIFD(fake, 3, 0)
+		ims = append(ims, image{name: "descriptor+3 blocks+fake", data: img})
+		img, _ = withIFD(galago, 0, 0)
+		ims = append(ims, image{name: "descriptor+GALAGOPRO3", data: img, heavy: true})
+	}
+	// tail truncations (a BIOS region that starts later)
+	for _, cut := range []int{0x40000, 0x50000 + 0x1000*rng.Intn(16), 0x110000} {
+		ims = append(ims, image{name: fmt.Sprintf("GALAGOPRO3[%#x:]", cut), data: append([]byte(nil), galago[cut:]...), heavy: true})
+	}
+	ims = append(ims, image{name: "fake[0x3000:]", data: append([]byte(nil), fake[0x3000:]...)})
+	// byte mutations
+	mutate := func(src []byte, n int) ([]byte, []int) {
+		b := append([]byte(nil), src...)
+		var at []int
+		for i := 0; i < n; i++ {
+			p := rng.Intn(len(b))
+			b[p] ^= byte(1 + rng.Intn(255))
+			at = append(at, p)
+		}
+		return b, at
+	}
+	for i := 0; i < ctx.Scale(24, 200); i++ {
+		b, at := mutate(fake, 1+rng.Intn(6))
+		ims = append(ims, image{name: fmt.Sprintf("fake mutated at %v", at), data: b})
+	}
+	for i := 0; i < ctx.Scale(3, 20); i++ {
+		b, at := mutate(galago, 1+rng.Intn(24))
+		ims = append(ims, image{name: fmt.Sprintf("GALAGOPRO3 mutated at %v", at), data: b, heavy: true})
+	}
+
+	var d23all []string
+	parsed := 0
+	for i, im := range ims {
+		fw, err := parseWithTimeout(im.data)
+		if err != nil || fw == nil {
+			ctx.Count("derived-image-unparseable")
+			if im.pristine {
+				ctx.OracleFail(-1, "bundled image does not parse: "+fmt.Sprint(err), "pkg/uefi/uefi.go:ParseUEFIFirmwareBytes", map[string]interface{}{"image": im.name})
+			}
+			continue
+		}
+		parsed++
+		r := &run{ctx: ctx, im: im, fw: fw, size: uint64(len(im.data))}
+		r.gt = groundTruth(im.data, fw.Firmware)
+		nStop := 2
+		if im.heavy {
+			nStop = 1
+			if !im.pristine {
+				nStop = 0
+			}
+		}
+		reported := r.walker(0, nStop)
+		if i < 3 || i%7 == 0 {
+			r.walker(int64(1<<30), 0)
+			r.walker(-0x1000, 0)
+		}
+		if reported != nil {
+			r.selectors(reported)
+		}
+		r.intel()
+		d23all = append(d23all, r.d23...)
+		ctx.Count("image-parsed")
+	}
+	ctx.Rep.Extra["images_tried"] = len(ims)
+	ctx.Rep.Extra["images_parsed"] = parsed
+	ctx.Rep.Extra["d23_examples"] = head(d23all, 8)
+
+	// fixed witness of D23: GALAGOPRO3, volume 9B7FA59D-... inside an uncompressed volume-image section
+	probeD23(ctx, galago)
+}
+
+func probeD23(ctx *gal.Ctx, galago []byte) {
+	fw, err := parseWithTimeout(galago)
+	if err != nil {
+		ctx.Probe(findD23, false, "GALAGOPRO3 does not parse: "+err.Error())
+		return
+	}
+	gt := groundTruth(galago, fw.Firmware)
+	what := "no visited node of GALAGOPRO3 has a wrong range"
+	repro := false
+	vis, _, _, _ := walkAll(fw, false, nil)
+	n := 0
+	for _, v := range vis {
+		g := gt.byFW[v.f]
+		if g == nil || v.r.Offset == math.MaxUint64 || !g.located {
+			continue
+		}
+		if v.r.Offset != g.trueOff && g.d23() {
+			if !repro {
+				what = fmt.Sprintf("GALAGOPRO3: %s %s (below a non-compressed section) is reported at offset %#x, its bytes are at %#x", g.kind, g.guid, v.r.Offset, g.trueOff)
+			}
+			repro = true
+			n++
+		}
+	}
+	if repro {
+		what += fmt.Sprintf(" (%d such nodes)", n)
+	}
+	ctx.Probe(findD23, repro, what)
 }
